@@ -215,7 +215,7 @@ theorem join_consistent (d : DF) (how : How) (on : List String) (other : DF) (h 
   simp only [opRows] at hr
   obtain ⟨u, _, hr⟩ := bind_ok hr
   cases pure_ok hr
-  refine (C13.dfjoin_columns how d.names other.names on [d.rows] [other.rows] ?_ ?_).2 r hmem
+  refine C13.dfjoin_row_length_model how d.names other.names on [d.rows] [other.rows] ?_ ?_ r hmem
   · intro row hrow
     exact h row (by simpa [flat] using hrow)
   · intro row hrow
